@@ -41,7 +41,7 @@ def plan(tier, seed):
 
 
 def gen(rng, kind, tier):
-    h = c06.gen(rng, kind, tier)
+    h = c06.gen(rng, kind, tier, repeated_stamps=False)  # identity is keyed on the stamps: they stay pairwise distinct
     if h is not None and len(h["times"]) >= 2 and rng.random() < 0.3:
         # the statement speaks about consecutive frames of any time course: the time stamps need
         # not increase (e.g. a reversed course); they stay pairwise distinct
